@@ -18,7 +18,21 @@ where
     V: FixedSizeVariation,
 {
     pub(crate) fn equals(&self, other: &(V, I)) -> bool {
-        self.index == other.1 && self.value == other.0
+        // an echo is faithful if it is the same octet for octet: floating point values are compared by
+        // representation (0.0 == -0.0 would accept a changed echo, NaN != NaN would reject a faithful one)
+        fn encode<T: FixedSize>(x: &T) -> Option<([u8; 255], usize)> {
+            let mut buffer = [0u8; 255];
+            let mut cursor = WriteCursor::new(&mut buffer);
+            x.write(&mut cursor).ok()?;
+            let length = cursor.written().len();
+            Some((buffer, length))
+        }
+
+        self.index == other.1
+            && match (encode(&self.value), encode(&other.0)) {
+                (Some((a, n)), Some((b, m))) => a[..n] == b[..m],
+                _ => false,
+            }
     }
 }
 
